@@ -35,7 +35,7 @@ pub fn run() -> Result<usize, Vec<String>> {
     // --- fixtures -----------------------------------------------------------------------------
     // test_backward_control_flow: c = c + a*b; if c > 50 { c = c*a }, ten times
     {
-        let mut p = Program { leaves: vec![leaf(&[1], &[5.0]), leaf(&[1], &[2.0]), leaf(&[1], &[0.0])], nodes: vec![], retrack: vec![] };
+        let mut p = Program { leaves: vec![leaf(&[1], &[5.0]), leaf(&[1], &[2.0]), leaf(&[1], &[0.0])], nodes: vec![], retrack: vec![], frozen: Vec::new(), dropped: Vec::new() };
         let mut c = 2usize;
         for _ in 0..10 {
             p.nodes.push(PNode { op: OpK::Mul, args: vec![0, 1] });
@@ -62,6 +62,8 @@ pub fn run() -> Result<usize, Vec<String>> {
             leaves: vec![leaf(&[2, 2, 4], &img), leaf(&[3, 2, 1, 2], &fil)],
             nodes: vec![PNode { op: OpK::Conv { sr: 1, sc: 2 }, args: vec![0, 1] }],
             retrack: vec![],
+ frozen: Vec::new(),
+ dropped: Vec::new(),
         };
         let vals = eval_ref(&p, &[true, true], None).unwrap();
         let want = vec![52.0, 76.0, 100.0, 124.0, 105.0, 133.0, 161.0, 189.0, 105.0, 133.0, 161.0, 189.0];
@@ -81,6 +83,8 @@ pub fn run() -> Result<usize, Vec<String>> {
             leaves: vec![leaf(&[1, 3, 3], &[1., 2., 3., 4., 5., 6., 7., 8., 9.]), leaf(&[1, 1, 2, 2], &[3., 5., 2., 6.])],
             nodes: vec![PNode { op: OpK::Conv { sr: 1, sc: 1 }, args: vec![0, 1] }],
             retrack: vec![],
+ frozen: Vec::new(),
+ dropped: Vec::new(),
         };
         let vals = eval_ref(&p, &[false, false], None).unwrap();
         fixture("test_conv", vals[2].values() == vec![51.0, 67.0, 99.0, 115.0], &mut errs);
@@ -93,6 +97,8 @@ pub fn run() -> Result<usize, Vec<String>> {
             leaves: vec![leaf(&[2, 2, 3], &a), leaf(&[1, 3], &[1., 2., 3.])],
             nodes: vec![PNode { op: OpK::Matmul { ta: false, tb: true, bias: false }, args: vec![0, 1] }],
             retrack: vec![],
+ frozen: Vec::new(),
+ dropped: Vec::new(),
         };
         let vals = eval_ref(&p, &[true, true], None).unwrap();
         fixture("test_matmul_broadcast/value", vals[2].dims == vec![2, 2, 1] && vals[2].values() == vec![14.0, 10.0, 32.0, 50.0], &mut errs);
@@ -106,6 +112,8 @@ pub fn run() -> Result<usize, Vec<String>> {
             leaves: vec![leaf(&[3, 2], &[1., 4., 2., 5., 3., 6.]), leaf(&[3, 2], &[5., 3., 2., 6., 1., 2.])],
             nodes: vec![PNode { op: OpK::Matmul { ta: true, tb: false, bias: false }, args: vec![0, 1] }],
             retrack: vec![],
+ frozen: Vec::new(),
+ dropped: Vec::new(),
         };
         let vals = eval_ref(&p, &[true, true], None).unwrap();
         fixture("test_matmul_transpose/value", vals[2].values() == vec![12.0, 21.0, 36.0, 54.0], &mut errs);
@@ -119,6 +127,8 @@ pub fn run() -> Result<usize, Vec<String>> {
             leaves: vec![leaf(&[2, 3], &[1., 2., 3., 4., 5., 6.]), leaf(&[3, 1], &[1., 2., 3.]), leaf(&[2, 1], &[7., 8.])],
             nodes: vec![PNode { op: OpK::Matmul { ta: false, tb: false, bias: true }, args: vec![0, 1, 2] }],
             retrack: vec![],
+ frozen: Vec::new(),
+ dropped: Vec::new(),
         };
         let m = [true, true, true];
         let vals = eval_ref(&p, &m, None).unwrap();
@@ -133,6 +143,8 @@ pub fn run() -> Result<usize, Vec<String>> {
             leaves: vec![leaf(&[2], &[1., 2.]), leaf(&[1, 2], &[2., 4.])],
             nodes: vec![PNode { op: OpK::Matmul { ta: true, tb: false, bias: false }, args: vec![0, 1] }],
             retrack: vec![],
+ frozen: Vec::new(),
+ dropped: Vec::new(),
         };
         let vals = eval_ref(&p, &[true, true], None).unwrap();
         fixture("test_matmul_broadcast_vec/value", vals[2].dims == vec![2, 2] && vals[2].values() == vec![2., 4., 4., 8.], &mut errs);
@@ -146,6 +158,8 @@ pub fn run() -> Result<usize, Vec<String>> {
             leaves: vec![leaf(&[2, 2], &[l2, l2, 0.0, 0.0]), leaf(&[2, 2], &[3., 5., 2., 5.])],
             nodes: vec![PNode { op: OpK::Softmax, args: vec![0] }, PNode { op: OpK::Mul, args: vec![2, 1] }],
             retrack: vec![],
+ frozen: Vec::new(),
+ dropped: Vec::new(),
         };
         let vals = eval_ref(&p, &[true, true], None).unwrap();
         fixture("test_softmax/value", close(&vals[3].values(), &[1.5, 2.5, 1.0, 2.5], 1e-12), &mut errs);
@@ -158,6 +172,8 @@ pub fn run() -> Result<usize, Vec<String>> {
             leaves: vec![leaf(&[1, 1], &[3.0f64.ln()]), leaf(&[1, 1], &[5.0])],
             nodes: vec![PNode { op: OpK::Sigmoid, args: vec![0] }, PNode { op: OpK::Mul, args: vec![2, 1] }],
             retrack: vec![],
+ frozen: Vec::new(),
+ dropped: Vec::new(),
         };
         let vals = eval_ref(&p, &[true, true], None).unwrap();
         fixture("test_sigmoid/value", close(&vals[3].values(), &[3.75], 1e-12), &mut errs);
@@ -170,6 +186,8 @@ pub fn run() -> Result<usize, Vec<String>> {
             leaves: vec![leaf(&[2, 2, 3], &[1., 2., 3., 4., 5., 6., 9., 8., 7., 7., 6., 5.])],
             nodes: vec![PNode { op: OpK::Sum(1), args: vec![0] }, PNode { op: OpK::Sum(2), args: vec![0] }],
             retrack: vec![],
+ frozen: Vec::new(),
+ dropped: Vec::new(),
         };
         let vals = eval_ref(&p, &[true], None).unwrap();
         fixture("test_sum/1", vals[1].dims == vec![2, 2, 1] && vals[1].values() == vec![6., 15., 24., 18.], &mut errs);
@@ -178,18 +196,24 @@ pub fn run() -> Result<usize, Vec<String>> {
             leaves: vec![leaf(&[1, 3], &[2., 4., 2.])],
             nodes: vec![PNode { op: OpK::Sum(1), args: vec![0] }, PNode { op: OpK::Div, args: vec![0, 1] }],
             retrack: vec![],
+ frozen: Vec::new(),
+ dropped: Vec::new(),
         };
         fixture("test_backward_div_sum", close(&grad_of(&p, &[true], 2, None, 0), &[0.0, 0.0, 0.0], 1e-12), &mut errs);
         let p = Program {
             leaves: vec![leaf(&[2, 3], &[1., 2., 3., 3., 2., 1.]), leaf(&[3], &[1., 2., 3.])],
             nodes: vec![PNode { op: OpK::Mul, args: vec![0, 1] }],
             retrack: vec![],
+ frozen: Vec::new(),
+ dropped: Vec::new(),
         };
         fixture("test_mul_broadcast/b", grad_of(&p, &[true, true], 2, None, 1) == vec![4., 4., 4.], &mut errs);
         let p = Program {
             leaves: vec![leaf(&[2, 3], &[1., 2., 3., 4., 5., 6.]), leaf(&[2, 3], &[3., 2., 1., 6., 5., 4.])],
             nodes: vec![PNode { op: OpK::Powf(2.0), args: vec![0] }, PNode { op: OpK::Mul, args: vec![2, 1] }],
             retrack: vec![],
+ frozen: Vec::new(),
+ dropped: Vec::new(),
         };
         fixture("test_powf/a", grad_of(&p, &[true, true], 3, None, 0) == vec![6., 8., 6., 48., 50., 48.], &mut errs);
         n += 5;
@@ -204,11 +228,11 @@ pub fn run() -> Result<usize, Vec<String>> {
     let x0 = vec![0.75, 1.25, 2.0, 0.5, 1.5, 2.25];
     let mut fd_cases: Vec<Program> = Vec::new();
     for op in unary {
-        fd_cases.push(Program { leaves: vec![leaf(&[2, 3], &x0)], nodes: vec![PNode { op, args: vec![0] }], retrack: vec![] });
+        fd_cases.push(Program { leaves: vec![leaf(&[2, 3], &x0)], nodes: vec![PNode { op, args: vec![0] }], retrack: vec![], frozen: Vec::new(), dropped: Vec::new() });
     }
     let y0 = vec![1.5, 0.5, 2.5];
     for op in [OpK::Add, OpK::Sub, OpK::Mul, OpK::Div, OpK::Axpy(-2.0)] {
-        fd_cases.push(Program { leaves: vec![leaf(&[2, 3], &x0), leaf(&[3], &y0)], nodes: vec![PNode { op, args: vec![0, 1] }], retrack: vec![] });
+        fd_cases.push(Program { leaves: vec![leaf(&[2, 3], &x0), leaf(&[3], &y0)], nodes: vec![PNode { op, args: vec![0, 1] }], retrack: vec![], frozen: Vec::new(), dropped: Vec::new() });
     }
     for ta in [false, true] {
         for tb in [false, true] {
@@ -218,6 +242,8 @@ pub fn run() -> Result<usize, Vec<String>> {
                 leaves: vec![leaf(&[2].iter().chain(a.iter()).cloned().collect::<Vec<_>>(), &[x0.clone(), y0.clone(), y0.clone()].concat()), leaf(&b, &x0), leaf(&[2], &[0.5, 1.5])],
                 nodes: vec![PNode { op: OpK::Matmul { ta, tb, bias: true }, args: vec![0, 1, 2] }],
                 retrack: vec![],
+ frozen: Vec::new(),
+ dropped: Vec::new(),
             });
         }
     }
@@ -225,6 +251,8 @@ pub fn run() -> Result<usize, Vec<String>> {
         leaves: vec![leaf(&[2, 1, 3, 3], &(0..18).map(|i| 0.5 + 0.25 * (i % 7) as f64).collect::<Vec<_>>()), leaf(&[2, 1, 2, 2], &(0..8).map(|i| 1.0 + 0.5 * (i % 3) as f64).collect::<Vec<_>>())],
         nodes: vec![PNode { op: OpK::Conv { sr: 1, sc: 1 }, args: vec![0, 1] }],
         retrack: vec![],
+ frozen: Vec::new(),
+ dropped: Vec::new(),
     });
     for p in &fd_cases {
         let mask = vec![true; p.nl()];
